@@ -40,5 +40,10 @@ ResOptsQ == { o \in ResOpts : o.dpad < 1000 } \cup ResLimOpts    \* quick tier: 
 ResRoots   == { <<"b1">>, <<"b3", "b4">>, <<>>, <<"b1", "b1">> }
 ResPutIds  == {"b8", "b12", "b5"}     \* b8: 68-byte CID (sha2-512); b12: a section that ends with its CID (no data bytes)
 ResMany    == {}
+(* a second, small resumption configuration: a 16 KiB block that is followed by other sections, and a block that does not verify *)
+ResXOpts   == { MkOpt(FALSE, FALSE, FALSE, v, 2048, 0) : v \in BOOLEAN }
+ResXRoots  == { <<"b1">> }
+ResXPutIds == {"b15", "b7", "b1"}     \* b15: 16 347 data bytes; b7: blake2b code over another block's digest (invalid block)
+ResXProbes == {"b15", "b7", "b1"}
 ResProbes  == {"b1", "b8", "b12", "b5"}
 =============================================================================
